@@ -690,7 +690,7 @@ private:
 			mask = 0x0000'0400'0000'0000 << k; // bitNPlusOne
 			if (mask & fraction_bits) {
 				std::cerr << "TBD: bitNPlusOne condition is triggered in posit<16,2>::integer_assign\n";
-				if (((mask - 1) & fraction_bits) | ((mask << 1) & fraction_bits)) raw++; // increment by 1
+				if (((mask - 1) & fraction_bits) | (raw & 0x1)) raw++; // increment by 1
 			}
 		}
 		_bits = sign ? -raw : raw;
